@@ -303,13 +303,19 @@ FRAGMENTS = [f_exists, f_filter, f_join, f_join3, f_tc, f_mutual, f_negation, f_
              f_arith, f_indexed]
 
 
-def gen_c03(seed, size="quick"):
+def gen_c20(seed, size="quick"):
+    """C03's fragment without eqrel storage (the statement excludes it); every IDB relation is an output."""
+    return gen_c03(seed, size, exclude=(f_eqrel,))
+
+
+def gen_c03(seed, size="quick", exclude=()):
     r = random.Random(seed)
     p = Prog(r, size)
     nfacts = r.choice([30, 60, 120]) if size == "quick" else r.choice([60, 150, 400, 1000])
     gen_edb(p, nfacts)
     k = r.randrange(3, 8) if size == "quick" else r.randrange(4, 12)
-    for f in r.sample(FRAGMENTS, min(k, len(FRAGMENTS))):
+    frs = [f for f in FRAGMENTS if f not in exclude]
+    for f in r.sample(frs, min(k, len(frs))):
         f(p)
         p.meta["fragments"].append(f.__name__)
     p.meta["outputs"] = list(p.outputs)
